@@ -50,6 +50,33 @@ contract(M + "copy_and_reset_steps", props=P, params={"steps": "seq:ref:Step"}, 
                       "unchanged_outside('%s', result)" % f_ for f_ in
                       ("status", "hook_failed", "duration", "exception", "exc_traceback", "error_message", "captured"))})
 
+# -- Scenario.reset: every step the scenario runs starts from a clean state, background copies included ------------------
+contract("abs:Scenario.all_steps.reset", trusted=True, params={"self": "ref:Scenario"}, pos_params=["self"], pure=True, result="seq:ref:Step",
+         ensures={"value": "result is all_steps_of(self)"}, doc="call-site view of Scenario.all_steps (background copies, then own steps)")
+contract("abs:Step.reset.view", trusted=True, params={"self": "ref:Step"}, pos_params=["self"],
+         modifies=["self.status", "self.hook_failed", "self.duration", "self.exception", "self.exc_traceback", "self.error_message", "self.captured"],
+         ensures={"clean": "self.status == Status.untested and self.hook_failed == False"},
+         doc="call-site view of Step.reset (proved: catalogue)")
+contract(M + "Scenario.reset", props=["C03", "C02"], params={"self": "ref:Scenario"}, self_classes=["Scenario"],
+         callsites={"self.all_steps": "abs:Scenario.all_steps.reset", "step.reset": "abs:Step.reset.view"},
+         requires={"distinct-step-objects": "forall(lambda j, k: implies(0 <= j < k and k < len(as_list(all_steps_of(self), 'ref:Step')), "
+                                            "as_list(all_steps_of(self), 'ref:Step')[j] is not as_list(all_steps_of(self), 'ref:Step')[k]))"},
+         modifies=["self._cached_status", "self.should_skip", "self.skip_reason", "self.hook_failed", "self._row", "self.was_dry_run",
+                   "self.exception", "self.exc_traceback", "self.error_message", "self.captured",
+                   "*.status", "*.duration", "*.hook_failed", "*.exception", "*.exc_traceback", "*.error_message", "*.captured"],
+         loops=[Loop(invariant={"steps-so-far-are-clean": "forall(lambda k: implies(0 <= k < _i, _seq[k].status == Status.untested and "
+                                                          "_seq[k].hook_failed == False))",
+                                "own-state": "self.hook_failed == False and self._cached_status == Status.untested and self.should_skip == False",
+                                "same": "_seq is all_steps_of(self)"})],
+         ensures={"every-step-of-the-scenario-background-copies-included-is-untested-again":
+                  "forall(lambda k: implies(0 <= k < len(as_list(all_steps_of(self), 'ref:Step')), "
+                  "as_list(all_steps_of(self), 'ref:Step')[k].status == Status.untested and "
+                  "as_list(all_steps_of(self), 'ref:Step')[k].hook_failed == False))",
+                  "the-scenario-itself-is-new-born": "self.hook_failed == False and self._cached_status == Status.untested and "
+                                                     "self.should_skip == False and is_none(self._row)"},
+         doc="C03: after reset_model() nothing of an earlier run is visible; the scenario's own copies of the background steps "
+             "are part of all_steps")
+
 # -- per-scenario copies of the inherited background steps (lazy) ------------------------------------------------
 BG = "as_ref(self.background, 'Background')"
 INH = "as_list(%s._inherited_steps, 'ref:Step')" % BG
